@@ -195,7 +195,9 @@ func DrawCaches(t *rapid.T, p *appencryption.CryptoPolicy, opt Options) {
 	p.SystemKeyCacheMaxSize = rapid.SampledFrom(capacities).Draw(t, "skCap")
 	p.IntermediateKeyCacheEvictionPolicy = rapid.SampledFrom(keyPolicies).Draw(t, "ikPolicy")
 	p.IntermediateKeyCacheMaxSize = rapid.SampledFrom(capacities).Draw(t, "ikCap")
-	if p.CacheIntermediateKeys && pct("shared") < 35 {
+	// SharedIntermediateKeyCache is documented as "ignored if CacheIntermediateKeys is
+	// disabled": that combination is generated too.
+	if pct("shared") < 35 {
 		p.SharedIntermediateKeyCache = true
 	}
 	if pct("sessCache") < sc {
